@@ -4,7 +4,7 @@
 //! the shared LRU lock (the container is handed an `Arc<RwLock<LruManager>>` that other components
 //! use too) when a read is issued — the read has to wait for the lock, not skip the touch.
 
-use cascette_client_storage::container::{Container, DynamicContainer};
+use cascette_client_storage::container::{AccessMode, Container, DynamicContainer};
 use cascette_client_storage::lru::LruManager;
 use parking_lot::RwLock;
 use proptest::prelude::*;
@@ -21,6 +21,9 @@ pub enum COp {
     /// read object #i; `hold`: 0 = nobody holds the LRU lock, 1 = another thread holds it shared,
     /// 2 = exclusively, for ~40 ms from just before the read
     Read { i: u16, hold: u8 },
+    /// drop the container and open the same storage again, with the same shared manager:
+    /// 0 = read-write, 1 = read-only (writes are refused, reads still touch), 2 = exclusive
+    Reopen(u8),
 }
 
 #[derive(Debug, Clone, Serialize, Deserialize)]
@@ -34,6 +37,7 @@ pub fn strategy() -> BoxedStrategy<CCase> {
     let op = prop_oneof![
         5 => any::<u16>().prop_map(COp::Write),
         6 => (any::<u16>(), prop_oneof![5 => Just(0u8), 1 => Just(1u8), 1 => Just(2u8)]).prop_map(|(i, hold)| COp::Read { i, hold }),
+        2 => (0u8..3).prop_map(COp::Reopen),
     ];
     (1u32..=4, 2u16..=6, proptest::collection::vec(op, 1..=14)).prop_map(|(cap, pool, ops)| CCase { cap, pool, ops }).boxed()
 }
@@ -57,13 +61,21 @@ pub fn check(c: &CCase) -> Verdict {
     };
     let rt = tokio::runtime::Builder::new_current_thread().enable_all().build().expect("runtime");
     let lru = Arc::new(RwLock::new(LruManager::new(c.cap, dir.path().join("lru"))));
-    let cont = match DynamicContainer::builder(dir.path().join("store")).lru(Arc::clone(&lru)).build() {
-        Ok(x) => x,
-        Err(e) => return Verdict::fail("C17:container-lru:build-fails", e.to_string()),
+    let open = |mode: AccessMode| -> Result<DynamicContainer, Verdict> {
+        let cont = DynamicContainer::builder(dir.path().join("store"))
+            .access_mode(mode)
+            .lru(Arc::clone(&lru))
+            .build()
+            .map_err(|e| Verdict::fail("C17:container-lru:build-fails", format!("{mode:?}: {e}")))?;
+        rt.block_on(cont.open()).map_err(|e| Verdict::fail("C17:container-lru:open-fails", format!("{mode:?}: {e}")))?;
+        Ok(cont)
     };
-    if let Err(e) = rt.block_on(cont.open()) {
-        return Verdict::fail("C17:container-lru:open-fails", e.to_string());
-    }
+    let mut cont = match open(AccessMode::ReadWrite) {
+        Ok(x) => x,
+        Err(v) => return v,
+    };
+    let (mut read_only_reads, mut reopened) = (false, false);
+    let mut mode = AccessMode::ReadWrite;
     // reference: most recent last
     let mut model: Vec<usize> = Vec::new();
     let mut stored = vec![false; c.pool as usize];
@@ -77,6 +89,15 @@ pub fn check(c: &CCase) -> Verdict {
     let (mut contended, mut reads) = (false, 0usize);
     for (n, op) in c.ops.iter().enumerate() {
         match op {
+            COp::Reopen(m) => {
+                mode = [AccessMode::ReadWrite, AccessMode::ReadOnly, AccessMode::Exclusive][(*m as usize).min(2)];
+                drop(cont);
+                cont = match open(mode) {
+                    Ok(x) => x,
+                    Err(v) => return v,
+                };
+                reopened = true;
+            }
             COp::Write(i) => {
                 let i = pick_idx(*i, c.pool as usize);
                 if rt.block_on(cont.write(&ekey(i), &content(i))).is_ok() {
@@ -119,6 +140,7 @@ pub fn check(c: &CCase) -> Verdict {
                 match r {
                     Ok(k) if buf[..k] == want[..] => {
                         reads += 1;
+                        read_only_reads |= mode == AccessMode::ReadOnly;
                         touch(&mut model, i, c.cap as usize);
                     }
                     Ok(k) => return Verdict::fail("C17:container-lru:read-returns-other-bytes", format!("op #{n}: object {i}: {k} bytes")),
@@ -148,5 +170,5 @@ pub fn check(c: &CCase) -> Verdict {
             );
         }
     }
-    Verdict::pass().nontrivial(reads >= 1 && model.len() >= 1).class_if(contended, "read-while-lru-lock-held-elsewhere").class_if(c.ops.len() > c.cap as usize, "more-ops-than-capacity")
+    Verdict::pass().nontrivial(reads >= 1 && model.len() >= 1).class_if(contended, "read-while-lru-lock-held-elsewhere").class_if(reopened, "storage-reopened").class_if(read_only_reads, "read-through-a-read-only-container").class_if(c.ops.len() > c.cap as usize, "more-ops-than-capacity")
 }
